@@ -553,6 +553,33 @@ def rebuild_backup(ctx, s):
             bad_rm.append(info["callee"])
     s.add("S-EFFECT", rb, "no-removal-of-old-files", "rebuild", rb.sp, PROVED if not bad_rm else VIOLATION,
           "nothing but a stale *.bak of an earlier rebuild is removed" if not bad_rm else "rebuild can delete files: %s" % bad_rm[0])
+    # every index environment rebuild opens is either handed back in the returned store or explicitly closed on the way
+    # to Ok: heed keeps an opened environment in a process-wide cache (by path) until prepare_for_closing, so one that
+    # is merely dropped is handed out again to whoever opens that path next - the next rebuild's lmdb.bak
+    from ..srules import leaf_values
+    opens = s.calls(rb, names={"pocket_db::Lmdb::new"})
+    closes = s.calls(rb, names={"pocket_db::Lmdb::close"})
+    oks_rb = [(n, v) for n, k_, v in s.return_kinds(rb) if k_ == "ok"]
+    for ob, oinfo in opens:
+        val = oinfo["value"]
+        is_val = lambda y: y == val
+        returned = any(contains_value(v, is_val) or any(contains_value(l, is_val) for l in leaf_values(an, v)) for n, v in oks_rb)
+        closed = False
+        for cb, cinfo in closes:
+            recv = [cinfo["args"][0]] + [p for p in cinfo["pre"][:1] if p is not None]
+            if any(contains_value(x, is_val) or any(contains_value(l, is_val) for l in leaf_values(an, x)) for x in recv):
+                good = s.ok_edges_of_call(rb, cb) or [cb]
+                reach = s.reach(rb, [an.cfg.entry], avoid=good)
+                if not any(n in reach for n, v in oks_rb):
+                    closed = True
+        okc = returned or closed
+        names_ = {n.decode("latin1") for n in path_names(oinfo) if n}
+        s.add("S-PAIR", rb, "opened-environment-closed", ",".join(sorted(names_)) or "?", oinfo["sp"], PROVED if okc else VIOLATION,
+              ("the environment opened here is the returned store's" if returned else
+               "the environment opened here is closed (Lmdb::close) on every path to Ok") if okc else
+              "an LMDB environment opened by rebuild is neither returned nor closed: it stays in heed's process-wide cache, and the "
+              "next rebuild in this process opens the same backup path and is handed this stale environment (it then copies the "
+              "index as of this rebuild)", ob)
     # a directory cannot be renamed over a non-empty directory: the backup target of every directory rebuild moves aside
     # (a path rebuild itself re-creates with create_dir) must have been cleared first, or the second rebuild of a store
     # fails half-way - after the event map was already moved
